@@ -17,6 +17,11 @@ Techniques (DESIGN 2b):
   evaluator GenEval (sa/peval subclass) once per concrete type argument -- T3, exhaustive over that finite domain.  Its adjacency clause
   is a TEXT match: the substring `self._node_reg.get_usage(node_name)` in get_links_for_node, `.nodes()` / `.links()` in to_graph;
   nothing is validated against the link's end nodes here (that fixture evaluation lives in C01, R-C01-2).
+* T3, interpreted histories (sa/concrete.py on the repository's own registry and element classes; nothing imported): R-C14-8 -- for each
+  public way to create a link (add_pipe, add_pump HEAD/POWER, add_valve of six types; with and without re-assigning pattern, curve and
+  start node through the setters) and for each leaf class of the Link hierarchy (every usage-filing property set): add, remove, then no
+  registry holds a usage record naming the link and no view of the link registry holds its name.  isinstance is decided by the class
+  hierarchy read from the source, so unreachable elif arms are not taken.  Fixture: one link, three bare junctions, patterns as names only.
 * T3, exhaustive over a finite domain: R-C14-5s (abstract_setter on all 8 (start, end, new) configurations over two abstract nodes,
   for both end-node setters; expression values are resolved by exact unparsed text).
 """
@@ -41,7 +46,10 @@ EXPLANATION = (
     "typed set (AST pattern; the typed generators are run per type argument by the local evaluator GenEval: T3, exhaustive over the type "
     "arguments); adjacency is a text match on get_links_for_node / to_graph, not validated against end nodes. R-C14-5s (T3, all 8 two-node "
     "configurations per end-node setter): usage flags follow the link's ends. R-C14-6 / R-C14-7 (line-number order): duplicate-name refusal "
-    "precedes construction in 9 add_* methods; Link.__init__ looks up both end nodes before the first add_usage.")
+    "precedes construction in 9 add_* methods; Link.__init__ looks up both end nodes before the first add_usage. R-C14-8 (T3, histories of one "
+    "link interpreted on the repository's own registries by sa/concrete.py: 9 public add_* variants x {plain, pattern/curve/start node re-assigned} "
+    "and every leaf class of the Link hierarchy with all usage-filing properties set): after remove_link / del registry[name] no usage record "
+    "names the link and no view of the link registry holds it; isinstance follows the class hierarchy of the source.")
 RULE_TEXT = ("one instance = one (rule, construct): a usage registration site, a deletion method, a typed subset, a view accessor; "
              "distinct = distinct constructs")
 
@@ -1212,6 +1220,19 @@ WITNESSES = [
          new="        if not force and with_control:\n            for i in x:\n                self.remove_control(i)\n        del self._link_reg[name]\n", rule="R-C14-4b"),
     dict(name="remove-node-deletes-from-other-registry", file=MODEL, old="        self._node_reg.__delitem__(name)\n        if not force and with_control:\n",
          new="        del self._link_reg[name]\n        if not force and with_control:\n", rule="R-C14-4"),
+    # ---- R-C14-8: add -> remove histories per link class, interpreted; isinstance follows the real hierarchy
+    dict(name="release-cascade-shadows-headpump", file=MODEL, old='            if isinstance(link, GPValve):\n                self._curve_reg.remove_usage(link.headloss_curve_name, (link.name, "Valve"))\n            if isinstance(link, Pump):\n                self._pattern_reg.remove_usage(link.speed_pattern_name, (link.name, "Pump"))\n            if isinstance(link, HeadPump):\n                self._curve_reg.remove_usage(link.pump_curve_name, (link.name, "Pump"))\n',
+         new='            if isinstance(link, Pump):\n                self._pattern_reg.remove_usage(link.speed_pattern_name, (link.name, "Pump"))\n            elif isinstance(link, HeadPump):\n                self._curve_reg.remove_usage(link.pump_curve_name, (link.name, "Pump"))\n            elif isinstance(link, GPValve):\n                self._curve_reg.remove_usage(link.headloss_curve_name, (link.name, "Valve"))\n', rule="R-C14-8"),
+    dict(name="release-gpv-curve-dropped", file=MODEL, old='            if isinstance(link, GPValve):\n                self._curve_reg.remove_usage(link.headloss_curve_name, (link.name, "Valve"))\n',
+         new='            if isinstance(link, GPValve):\n                self._curve_reg.remove_usage(link.name, (link.headloss_curve_name, "Valve"))\n', rule="R-C14-8"),
+    dict(name="release-by-exact-type-only", file=MODEL, old='            if isinstance(link, GPValve):\n                self._curve_reg.remove_usage(link.headloss_curve_name, (link.name, "Valve"))\n            if isinstance(link, Pump):\n                self._pattern_reg.remove_usage(link.speed_pattern_name, (link.name, "Pump"))\n            if isinstance(link, HeadPump):\n                self._curve_reg.remove_usage(link.pump_curve_name, (link.name, "Pump"))\n',
+         new='            for klass in type(link).__mro__[:1]:\n                if klass is GPValve:\n                    self._curve_reg.remove_usage(link.headloss_curve_name, (link.name, "Valve"))\n                elif klass is Pump:\n                    self._pattern_reg.remove_usage(link.speed_pattern_name, (link.name, "Pump"))\n                elif klass is HeadPump:\n                    self._curve_reg.remove_usage(link.pump_curve_name, (link.name, "Pump"))\n', rule="R-C14-8"),
+    dict(name="release-cascade-subclass-first-preserving", file=MODEL, old='            if isinstance(link, GPValve):\n                self._curve_reg.remove_usage(link.headloss_curve_name, (link.name, "Valve"))\n            if isinstance(link, Pump):\n                self._pattern_reg.remove_usage(link.speed_pattern_name, (link.name, "Pump"))\n            if isinstance(link, HeadPump):\n                self._curve_reg.remove_usage(link.pump_curve_name, (link.name, "Pump"))\n',
+         new='            if isinstance(link, HeadPump):\n                self._curve_reg.remove_usage(link.pump_curve_name, (link.name, "Pump"))\n                self._pattern_reg.remove_usage(link.speed_pattern_name, (link.name, "Pump"))\n            elif isinstance(link, Pump):\n                self._pattern_reg.remove_usage(link.speed_pattern_name, (link.name, "Pump"))\n            elif isinstance(link, GPValve):\n                self._curve_reg.remove_usage(link.headloss_curve_name, (link.name, "Valve"))\n', silent=True),
+    dict(name="release-nested-subclass-test-preserving", file=MODEL, old='            if isinstance(link, GPValve):\n                self._curve_reg.remove_usage(link.headloss_curve_name, (link.name, "Valve"))\n            if isinstance(link, Pump):\n                self._pattern_reg.remove_usage(link.speed_pattern_name, (link.name, "Pump"))\n            if isinstance(link, HeadPump):\n                self._curve_reg.remove_usage(link.pump_curve_name, (link.name, "Pump"))\n',
+         new='            if isinstance(link, Pump):\n                self._pattern_reg.remove_usage(link.speed_pattern_name, (link.name, "Pump"))\n                if isinstance(link, HeadPump):\n                    self._curve_reg.remove_usage(link.pump_curve_name, (link.name, "Pump"))\n            elif isinstance(link, GPValve):\n                self._curve_reg.remove_usage(link.headloss_curve_name, (link.name, "Valve"))\n', silent=True),
+    dict(name="release-mro-dispatch-preserving", file=MODEL, old='            if isinstance(link, GPValve):\n                self._curve_reg.remove_usage(link.headloss_curve_name, (link.name, "Valve"))\n            if isinstance(link, Pump):\n                self._pattern_reg.remove_usage(link.speed_pattern_name, (link.name, "Pump"))\n            if isinstance(link, HeadPump):\n                self._curve_reg.remove_usage(link.pump_curve_name, (link.name, "Pump"))\n',
+         new='            for klass in type(link).__mro__:\n                if klass is GPValve:\n                    self._curve_reg.remove_usage(link.headloss_curve_name, (link.name, "Valve"))\n                elif klass is Pump:\n                    self._pattern_reg.remove_usage(link.speed_pattern_name, (link.name, "Pump"))\n                elif klass is HeadPump:\n                    self._curve_reg.remove_usage(link.pump_curve_name, (link.name, "Pump"))\n', silent=True),
     dict(name="rename-local-preserving", file=MODEL, old="            node = self._data.pop(key)\n            self._junctions.discard(key)",
          new="            node = self._data.pop(key)\n            self._junctions.discard(key)\n            _n = node", silent=True),
 ]
